@@ -48,7 +48,7 @@ const char *vk_call_names[] = { "none", "pipe", "close", "read", "write", "poll"
 
 void vk_log(const char *fmt, ...)
 {
-  if (!S) return;
+  if (!S || !S->verbose) return;
   int room = VK_LOG_SIZE - S->loglen - 2;
   if (room < 64) return;
   va_list ap;
@@ -235,6 +235,7 @@ static void ev_done(struct vk_event *e, long ret, int err)
   e->ret = ret;
   e->err = ret < 0 ? err : 0;
   if (e->call == C_MALLOC || e->call == C_CALLOC || e->call == C_REALLOC || e->call == C_FREE || e->call == C_STRDUP) return;
+  if (!S->verbose) return;
   vk_log("    %s%s(%ld,%ld,%ld) = %ld%s%s t=%lld%s", e->side ? "[child] " : "", vk_call_names[e->call], e->a0, e->a1,
          e->a2, ret, ret < 0 ? " errno=" : "", ret < 0 ? strerror(err) : "", (long long) S->clock_ms,
          e->injected ? " (injected)" : "");
@@ -1355,28 +1356,19 @@ pid_t vk_vfork(void)
 static void emulated_exec(const char *file, char *const argv[])
 {
   (void) file;
-  /* what exec does to the process state that the helper can observe */
-  DIR *d = opendir("/proc/self/fd");
-  int tokill[256], nk = 0;
-  if (d) {
-    int dfd = dirfd(d);
-    struct dirent *en;
-    while ((en = readdir(d))) {
-      if (en->d_name[0] < '0' || en->d_name[0] > '9') continue;
-      int fd = atoi(en->d_name);
-      if (fd == dfd || fd >= HARNESS_FD_BASE) continue;
-      int fl = fcntl(fd, F_GETFD);
-      if (fl >= 0 && (fl & FD_CLOEXEC) && nk < 256) tokill[nk++] = fd;
-    }
-    closedir(d);
+  /* what exec does to the process state that the helper can observe: close-on-exec descriptors go away.
+   * Descriptors are probed up to a bound well above anything a harness opens below the harness range. */
+  int bound = vk_cfg.hello_lite ? vk_cfg.vlimit + 8 : (vk_cfg.vlimit > 64 ? vk_cfg.vlimit : 64) + 32;
+  for (int fd = 0; fd < bound; fd++) {
+    int fl = fcntl(fd, F_GETFD);
+    if (fl >= 0 && (fl & FD_CLOEXEC)) close(fd);
   }
-  for (int i = 0; i < nk; i++) close(tokill[i]);
-  for (int s = 1; s < 65; s++) {
+  for (int s = 1; s < 32 && !vk_cfg.hello_lite; s++) {
     struct sigaction sa;
     if (sigaction(s, NULL, &sa) == 0 && sa.sa_handler != SIG_DFL && sa.sa_handler != SIG_IGN) signal(s, SIG_DFL);
   }
   vk_side = 2;
-  vchild_run(my_ctl, IMG_EMUL, argv, vk_environ);
+  vchild_run(my_ctl, IMG_EMUL | (vk_cfg.hello_lite ? 0x100 : 0) | ((bound & 0xfff) << 12), argv, vk_environ);
   _exit(0);
 }
 
